@@ -49,6 +49,7 @@ type Task struct {
 	goid    uint64
 	sim     *Sim
 	parks, awParks int64
+	Panic   string // set when the task's function panicked (a real process would have died)
 }
 
 // Sim is the state of one simulated run.
@@ -330,6 +331,10 @@ func taskMain(t *Task, f func()) {
 	t.Started = true
 	t.Log("start", t.Name)
 	defer func() {
+		if r := recover(); r != nil {
+			t.Panic = fmt.Sprint(r)
+			t.Log("panic", t.Panic)
+		}
 		t.Exited = true
 		t.Waiting = ""
 		t.Log("exit", "")
